@@ -119,9 +119,13 @@ func c04Eval(e *c04Env, cs sCase) (*lib.Violation, string) {
 	return nil, path + "|" + obs
 }
 
-func c04DBs() []dbSpec {
+func c04DBs(thorough bool) []dbSpec {
 	var out []dbSpec
-	for _, s := range uSubsets(len(c04Pool), 2) {
+	k := 2
+	if thorough {
+		k = 3
+	}
+	for _, s := range uSubsets(len(c04Pool), k) {
 		idx := make([]int, len(s))
 		for i, j := range s {
 			idx[i] = c04Pool[j]
@@ -136,7 +140,7 @@ func c04Run(c *lib.Ctx) {
 	defer vhost.Set("")
 	var idx int64
 	selfCheck := 0
-	for di, spec := range c04DBs() {
+	for di, spec := range c04DBs(c.Thorough()) {
 		if !c.Mine(int64(di)) {
 			continue
 		}
@@ -296,7 +300,7 @@ func c04Replay(c *lib.Ctx, raw json.RawMessage) []lib.Violation {
 func init() {
 	lib.Register(&lib.Check{
 		ID: "C04", Level: "model_checking",
-		Rule:      "full product of: databases = all subsets of <=2 of 22 platform-shaped / pipeline pool entries (an entry with a single redirect and a background & that is NOT a pipeline; none, linux, windows, macos, darwin, PowerShell, unix, bsd, cross-platform in two spellings, two-platform; on whitelisted tools, on a non-tool, on a tool behind a launcher prefix such as sudo / nohup and on a look-alike of a tool name) + the 22-entry database; 20 queries (lexical, NLP-expanded, typo-fallback with no terms and with all postings filtered); AllPlatforms x NoCrossPlatform x PipelineOnly x UseNLP x UseFuzzy x 5 requested-platform lists; 4 host OS values (vhost); entry points SearchUniversal and a chained cached wrapper (one cache per database and host, never invalidated, so answers cached under other switch settings are available to be served wrongly; ascending and, on the 22-entry database, descending order of combinations) always, cached (second call) on lexical cases and every 5th other, monitored and SearchWithPipelineOptions on lexical/no-platform cases. Oracle: every returned entry is eligible by the reference predicate, and is a pipeline command under PipelineOnly. Non-trivial = calls with a non-empty answer",
+		Rule:      "full product of: databases = all subsets of <=2 (quick) / <=3 (thorough) of 22 platform-shaped / pipeline pool entries (an entry with a single redirect and a background & that is NOT a pipeline; none, linux, windows, macos, darwin, PowerShell, unix, bsd, cross-platform in two spellings, two-platform; on whitelisted tools, on a non-tool, on a tool behind a launcher prefix such as sudo / nohup and on a look-alike of a tool name) + the 22-entry database; 20 queries (lexical, NLP-expanded, typo-fallback with no terms and with all postings filtered); AllPlatforms x NoCrossPlatform x PipelineOnly x UseNLP x UseFuzzy x 5 requested-platform lists; 4 host OS values (vhost); entry points SearchUniversal and a chained cached wrapper (one cache per database and host, never invalidated, so answers cached under other switch settings are available to be served wrongly; ascending and, on the 22-entry database, descending order of combinations) always, cached (second call) on lexical cases and every 5th other, monitored and SearchWithPipelineOptions on lexical/no-platform cases. Oracle: every returned entry is eligible by the reference predicate, and is a pipeline command under PipelineOnly. Non-trivial = calls with a non-empty answer",
 		Assume:    []string{"alias pool limited to darwin, powershell, cmd, unix, bash", "the platform filter is demanded of SearchUniversal-based entry points; of the legacy SearchWithPipelineOptions only the pipeline gate is demanded", "map order pinned"},
 		QuickSecs: 150, ThorSecs: 900,
 		Run: c04Run, Replay: c04Replay,
